@@ -195,6 +195,16 @@ pub struct KnownFinding {
     pub what: String,
 }
 
+/// `serde_json::from_str` without the parser's recursion limit of 128: traces may hold values
+/// nested a few hundred levels deep.
+pub fn json_parse<T: serde::de::DeserializeOwned>(txt: &str) -> Result<T, serde_json::Error> {
+    let mut de = serde_json::Deserializer::from_str(txt);
+    de.disable_recursion_limit();
+    let v = T::deserialize(&mut de)?;
+    de.end()?;
+    Ok(v)
+}
+
 pub fn load_known(path: &str) -> Vec<KnownFinding> {
     let txt = match std::fs::read_to_string(path) {
         Ok(t) => t,
@@ -465,7 +475,9 @@ pub fn run<S: Scenario>(cfg: &RunCfg) -> i32 {
 
     std::thread::scope(|sc| {
         for _ in 0..cfg.threads.max(1) {
-            sc.spawn(|| {
+            // (a roomy stack: values nested a few hundred levels deep recurse through serde, the
+            // code under test and the harness's own visitors)
+            std::thread::Builder::new().stack_size(64 << 20).spawn_scoped(sc, || {
                 loop {
                     let b = next.fetch_add(1, Ordering::SeqCst);
                     if b >= nblocks || b > stop_at.load(Ordering::SeqCst) {
@@ -540,7 +552,8 @@ pub fn run<S: Scenario>(cfg: &RunCfg) -> i32 {
                     m.pending.insert(b, bs);
                     merge_ready(&mut m);
                 }
-            });
+            })
+            .expect("harness: cannot spawn a worker thread");
         }
     });
 
@@ -581,7 +594,7 @@ pub fn run<S: Scenario>(cfg: &RunCfg) -> i32 {
         let path = write_replay::<S>(cfg, *run, &original, &min, &mv, steps);
         // confirm from the written file before reporting
         let doc: Value =
-            serde_json::from_str(&std::fs::read_to_string(&path).unwrap()).unwrap();
+            json_parse(&std::fs::read_to_string(&path).unwrap()).unwrap();
         let t2: S::Trace = serde_json::from_value(doc["trace"].clone()).unwrap();
         let o2 = exec_one::<S>(&t2, false);
         if o2.violation.is_none() {
